@@ -604,7 +604,13 @@ def compute_mro(cls:'Class') -> Sequence[Union['Class', str]]:
                     # Only re-resolve the base object if the base was None.
                     # The name as it was expanded where the class is defined comes first:
                     # the scope might bind its first component to something else further down.
-                    resolved_base = o.system.objForFullName(o._initialbases[i])
+                    # It is followed through the aliases known now that every module has been 
+                    # processed: the class might have been moved by a re-export in the meantime.
+                    resolved_base: Optional[Documentable]
+                    try:
+                        resolved_base = o.system.find_object(o._initialbases[i])
+                    except LookupError:
+                        resolved_base = None
                     if not isinstance(resolved_base, Class):
                         resolved_base = o.parent.resolveName(str_base)
                     if isinstance(resolved_base, Class):
